@@ -842,6 +842,11 @@ func genSpec(seed uint64, worker, run int, tier string) (*Spec, *Rng, faultSet) 
 			s.Siblings = true
 		}
 	}
+	if r.Chance(0.05) {
+		// geometry.WorldPolygon: an exported, process-wide object
+		s.Pool = append(s.Pool, Recipe{Via: "world", Kind: "Polygon", Shape: Shape{Cx: 0, Cy: 0, R: 90, N: 4}})
+		n = len(s.Pool)
+	}
 	if r.Chance(0.15) {
 		// one more object that WRAPS earlier pool objects without copying them
 		sh := Recipe{Via: "share", Kind: r.PickS("FeatureCollection", "GeometryCollection", "Feature", "Rewrap")}
